@@ -217,3 +217,416 @@ func VH_C04_cluster2_catchup() {
 	vAssert(step >= 2, "script-completed")
 	vReach("end")
 }
+
+// ---- n real nodes ----
+
+type vCluster struct {
+	ids   []uint64
+	nodes map[uint64]*Raft
+	logs  map[uint64]*vAbsLog
+	srv   map[uint64]*server
+	down  map[uint64]bool
+}
+
+var vClusterDirs = map[uint64]string{1: vDir, 2: vDirF, 3: "/ghostG"}
+
+func vNewCluster() *vCluster {
+	return &vCluster{nodes: map[uint64]*Raft{}, logs: map[uint64]*vAbsLog{}, srv: map[uint64]*server{}, down: map[uint64]bool{}}
+}
+
+func (c *vCluster) add(nid uint64, ents []*entry, term, votedFor, commit uint64) *Raft {
+	r, a := vClusterNode(vClusterDirs[nid], nid, ents, term, votedFor, commit)
+	c.ids = append(c.ids, nid)
+	c.nodes[nid], c.logs[nid] = r, a
+	c.srv[nid] = &server{r: r, stopCh: make(chan struct{})}
+	return r
+}
+
+// wire: every node dials every other through a fresh byte pipe served by the peer's real connection handler.
+func (c *vCluster) wire() {
+	for _, id := range c.ids {
+		c.nodes[id].dialFn = func(network, address string, timeout time.Duration) (net.Conn, error) {
+			for _, pid := range c.ids {
+				if address == vAddr(int(pid)) && !c.down[pid] {
+					a, b := vPipe()
+					srv := c.srv[pid]
+					go func() { _ = srv.handleConn(b) }()
+					return a, nil
+				}
+			}
+			return nil, vIOError{"dial: connection refused"}
+		}
+	}
+}
+
+// start runs every node's FSM loop and every state loop except main's as goroutines.
+func (c *vCluster) start(mainID uint64) {
+	for _, id := range c.ids {
+		r := c.nodes[id]
+		go r.fsm.runLoop()
+		if id != mainID {
+			go r.stateLoop()
+		}
+	}
+}
+
+func (c *vCluster) closeAll() {
+	for _, id := range c.ids {
+		c.nodes[id].doClose(ErrServerClosed)
+	}
+}
+
+//verif:check C01,C02,C05,C17 sched=coop maxsteps=600000 onunwind=violation stubs=rt,timers,valuefile,abslog onblock=violation reach=one-candidate,two-candidates,leader-elected,no-leader,closed,end desc="three real nodes end to end through an election: one or two followers time out at the same moment, become candidates (real startElection, vote requests over real connections, real vote handlers, durable votes), and at the next quiescent point: at most one leader exists in the new term, every node voted at most once in it (durably), a leader was granted by a majority and holds every entry of the newest term that a majority held before the election, the others follow it and their logs equal its log incl. its committed no-op; a sole candidate whose log is at least as up to date as another node's is elected" bounds="3 voters; each log is the 2-entry common prefix, that plus one entry of a newer term, or that plus two entries of an older term (27 combinations); 1 or 2 simultaneous candidates; round-robin goroutine schedule; no further timer fires"
+func VH_C01_cluster3_election() {
+	cfgE := vClusterConfig().encode()
+	cfgE.index, cfgE.term = 1, 1
+	e2 := &entry{index: 2, term: 1, typ: entryUpdate, data: vBytes("payload2", 1)}
+	e3 := &entry{index: 3, term: 2, typ: entryUpdate, data: vBytes("payload3", 1)}
+	o3 := &entry{index: 3, term: 1, typ: entryUpdate, data: vBytes("payload3.old", 1)}
+	o4 := &entry{index: 4, term: 1, typ: entryUpdate, data: vBytes("payload4.old", 1)}
+	c := vNewCluster()
+	init := map[uint64][]*entry{}
+	for id := uint64(1); id <= 3; id++ {
+		ents := []*entry{cfgE, e2}
+		switch vChoice(3) {
+		case 1:
+			ents = append(ents, e3) // newer term, shorter
+		case 2:
+			ents = append(ents, o3, o4) // older term, longer
+		}
+		init[id] = ents
+		c.add(id, ents, 2, 0, 2)
+	}
+	maxTerm := uint64(0)
+	for _, ents := range init {
+		if t := ents[len(ents)-1].term; t > maxTerm {
+			maxTerm = t
+		}
+	}
+	holds := func(id uint64, e *entry) bool {
+		for _, x := range init[id] {
+			if x.index == e.index && x.term == e.term {
+				return true
+			}
+		}
+		return false
+	}
+	// upToDate(a, b): a's log is at least as up to date as b's (last term, then last index)
+	upToDate := func(a, b uint64) bool {
+		la, lb := init[a][len(init[a])-1], init[b][len(init[b])-1]
+		return la.term > lb.term || (la.term == lb.term && la.index >= lb.index)
+	}
+	c.wire()
+	c.start(1)
+	two := vChoice(2) == 1
+	step := 0
+	vSetIdleHook(func() {
+		switch step {
+		case 0:
+			// election timeouts elapse
+			vAssert(vFire(c.nodes[1].timer), "timer-1-armed")
+			if two {
+				vAssert(vFire(c.nodes[2].timer), "timer-2-armed")
+				vReach("two-candidates")
+			} else {
+				vReach("one-candidate")
+			}
+		case 1:
+			leaders := 0
+			var ldr *Raft
+			for _, id := range c.ids {
+				r := c.nodes[id]
+				if r.state == Leader && r.term == 3 {
+					leaders++
+					ldr = r
+				}
+				vAssert(r.term <= 3, "E-no-term-beyond-the-election")
+				dt, dv := vDurableAt(vClusterDirs[id], ".term")
+				vAssert(dt == r.term && dv == r.votedFor, "E-term-and-vote-durable")
+			}
+			vAssert(leaders <= 1, "E-at-most-one-leader-per-term")
+			// who voted for whom in term 3
+			votes := map[uint64]int{}
+			for _, id := range c.ids {
+				if r := c.nodes[id]; r.term == 3 && r.votedFor != 0 {
+					votes[r.votedFor]++
+				}
+			}
+			if ldr != nil {
+				vReach("leader-elected")
+				vAssert(votes[ldr.nid] >= 2, "E-leader-was-granted-by-a-majority")
+				for _, id := range c.ids {
+					for _, e := range init[id] {
+						n := 0
+						for _, other := range c.ids {
+							if holds(other, e) {
+								n++
+							}
+						}
+						// an entry of the newest term present anywhere, stored on a majority, is committed in every
+						// continuation (an older-term entry on a majority is not: Raft's figure-8 case)
+						vAssert(n < 2 || e.term < maxTerm || holds(ldr.nid, e), "E-leader-holds-every-newest-term-entry-a-majority-held")
+					}
+				}
+				la := c.logs[ldr.nid]
+				for _, id := range c.ids {
+					r := c.nodes[id]
+					if r == ldr {
+						continue
+					}
+					vAssert(r.state != Leader, "E-others-do-not-lead")
+					vAssert(r.term == 3 && r.leader == ldr.nid && r.state == Follower, "E-others-follow-the-leader")
+					vAssert(r.lastLogIndex == ldr.lastLogIndex && vLogsEqual(la, c.logs[id], ldr.lastLogIndex), "E-logs-converge-on-the-leaders")
+					vAssert(r.commitIndex == ldr.lastLogIndex, "E-no-op-committed-everywhere")
+				}
+				vAssert(ldr.commitIndex == ldr.lastLogIndex, "E-leader-committed-its-no-op")
+			} else {
+				vReach("no-leader")
+				// a sole candidate at least as up to date as some other node must have won
+				vAssert(two || (!upToDate(1, 2) && !upToDate(1, 3)), "E-sole-up-to-date-candidate-is-elected")
+			}
+			c.closeAll()
+		}
+		step++
+	})
+	c.nodes[1].stateLoop()
+	vReach("closed")
+	vAssert(step >= 2, "script-completed")
+	vReach("end")
+}
+
+//verif:check C16,C01,C15 sched=coop maxsteps=800000 onunwind=violation stubs=rt,timers,valuefile,abslog onblock=violation reach=transfer-submitted,transferred,closed,end desc="three real nodes end to end through a leadership transfer: the leader (real state loop, replications caught up) gets a TransferLeadership task for a named or any target; timeout-now travels over a real connection, the target campaigns with the transfer permission, the old leader and the third node vote through their real handlers. At the next quiescent point the task has completed with success, the old leader is a follower in a higher term, exactly one node leads that term and it is a voter holding every entry the old leader had accepted, and all logs have converged" bounds="3 voters, logs of 3 entries; target node 2 or any; round-robin goroutine schedule; no timer fires"
+func VH_C16_cluster3_transfer() {
+	cfgE := vClusterConfig().encode()
+	cfgE.index, cfgE.term = 1, 1
+	e2 := &entry{index: 2, term: 1, typ: entryUpdate, data: vBytes("payload2", 1)}
+	e3 := &entry{index: 3, term: 2, typ: entryUpdate, data: vBytes("payload3", 1)}
+	c := vNewCluster()
+	for id := uint64(1); id <= 3; id++ {
+		c.add(id, []*entry{cfgE, e2, e3}, 3, 1, 2)
+	}
+	L := c.nodes[1]
+	L.state, L.leader = Leader, 1
+	c.wire()
+	c.start(1)
+	tr := transferLdr{task: newTask(), timeout: 1000}
+	if vChoice(2) == 1 {
+		tr.target = 2
+	}
+	step := 0
+	var accepted uint64
+	vSetIdleHook(func() {
+		switch step {
+		case 0:
+			vAssert(L.state == Leader && L.commitIndex == 4 && L.ldr.repls[2].status.matchIndex == 4 && L.ldr.repls[3].status.matchIndex == 4, "T-cluster-settled-before-transfer")
+			accepted = L.lastLogIndex
+			vOffer(L.taskCh, tr)
+			vReach("transfer-submitted")
+		case 1:
+			vAssert(isClosed(tr.Done()), "T-transfer-task-completed")
+			vAssert(tr.Err() == nil, "T-transfer-succeeded")
+			vAssert(L.state == Follower && L.term > 3, "T-success-only-after-old-leader-stepped-down-to-a-higher-term")
+			leaders := 0
+			var nl *Raft
+			for _, id := range c.ids {
+				if r := c.nodes[id]; r.state == Leader {
+					leaders++
+					nl = r
+				}
+			}
+			vAssert(leaders == 1 && nl != L, "T-exactly-one-new-leader")
+			if nl != nil {
+				vReach("transferred")
+				vAssert(tr.target == 0 || nl.nid == tr.target, "T-named-target-leads")
+				vAssert(nl.configs.Latest.isVoter(nl.nid), "T-successor-is-a-voter")
+				vAssert(nl.term == L.term && L.leader == nl.nid, "T-old-leader-follows-the-successor")
+				vAssert(nl.lastLogIndex > accepted && vLogsEqual(c.logs[1], c.logs[nl.nid], accepted), "T-successor-holds-everything-the-old-leader-accepted")
+				for _, id := range c.ids {
+					r := c.nodes[id]
+					vAssert(r.lastLogIndex == nl.lastLogIndex && vLogsEqual(c.logs[nl.nid], c.logs[id], nl.lastLogIndex), "T-logs-converge")
+				}
+			}
+			c.closeAll()
+		}
+		step++
+	})
+	L.stateLoop()
+	vReach("closed")
+	vAssert(step >= 2, "script-completed")
+	vReach("end")
+}
+
+// vVotersOf: the voter set of a configuration as a bitmask of node ids.
+func vVotersOf(c Config) uint64 {
+	var m uint64
+	for id, n := range c.Nodes {
+		if n.Voter {
+			m |= 1 << id
+		}
+	}
+	return m
+}
+
+func vPopcount(m uint64) int {
+	n := 0
+	for ; m != 0; m &= m - 1 {
+		n++
+	}
+	return n
+}
+
+//verif:check C08,C11,C17,C04 sched=coop maxsteps=1500000 onunwind=violation stubs=rt,timers,valuefile,abslog onblock=violation reach=change-submitted,promoted,closed,end desc="four real nodes end to end through a membership change: a settled 3-voter cluster gets a ChangeConfig task adding node 4 as a non-voter to be promoted; node 4 (a real, empty, un-bootstrapped node) is caught up by a real replication, its round completes, the leader promotes it. At the next quiescent point the task has completed, every configuration entry in the leader's log differs from its predecessor by at most one voter and retains a voter, each was appended only after the previous one was committed, node 4 is a voter of the committed, stable latest configuration on every node, and all four logs are equal" bounds="3 voters + 1 joining node; logs of 3 entries; round-robin goroutine schedule; no timer fires; promotion threshold larger than any measured round"
+func VH_C08_cluster4_add_promote() {
+	cfgE := vClusterConfig().encode()
+	cfgE.index, cfgE.term = 1, 1
+	e2 := &entry{index: 2, term: 1, typ: entryUpdate, data: vBytes("payload2", 1)}
+	e3 := &entry{index: 3, term: 2, typ: entryUpdate, data: vBytes("payload3", 1)}
+	c := vNewCluster()
+	vClusterDirs[4] = "/ghostH"
+	for id := uint64(1); id <= 3; id++ {
+		c.add(id, []*entry{cfgE, e2, e3}, 3, 1, 2)
+	}
+	N := c.add(4, nil, 0, 0, 0)
+	L := c.nodes[1]
+	L.state, L.leader = Leader, 1
+	L.promoteThreshold = 1 << 62
+	c.wire()
+	c.start(1)
+	nc := vClusterConfig()
+	nc.Nodes[4] = Node{ID: 4, Addr: vAddr(4), Action: Promote}
+	t := changeConfig{task: newTask(), newConf: nc}
+	step := 0
+	vSetIdleHook(func() {
+		switch step {
+		case 0:
+			vAssert(L.state == Leader && L.commitIndex == 4, "M-cluster-settled")
+			t.newConf.Index, t.newConf.Term = L.configs.Latest.Index, L.configs.Latest.Term
+			vOffer(L.taskCh, t)
+			vReach("change-submitted")
+		case 1:
+			vAssert(isClosed(t.Done()) && t.Err() == nil, "M-change-task-completed")
+			vAssert(L.state == Leader, "M-leader-kept-leading")
+			// walk the configuration entries of the leader's log
+			la := c.logs[1]
+			prev := vClusterConfig()
+			nconf := 0
+			for k, b := range la.ents {
+				e := &entry{}
+				if err := e.decode(bytes.NewReader(b)); err != nil {
+					panic(err)
+				}
+				if e.typ != entryConfig || k == 0 {
+					continue
+				}
+				var cf Config
+				if err := cf.decode(e); err != nil {
+					panic(err)
+				}
+				nconf++
+				diff := vVotersOf(prev) ^ vVotersOf(cf)
+				vAssert(vPopcount(diff) <= 1, "M-configurations-differ-by-at-most-one-voter")
+				vAssert(cf.numVoters() >= 1, "M-configuration-retains-a-voter")
+				prev = cf
+			}
+			vAssert(nconf == 2, "M-one-entry-to-add-one-to-promote")
+			vAssert(L.configs.IsCommitted() && L.configs.IsStable(), "M-latest-configuration-committed-and-stable")
+			n4, ok := L.configs.Latest.Nodes[4]
+			vAssert(ok && n4.Voter && n4.Action == None, "M-node-4-is-a-voter-now")
+			if ok && n4.Voter {
+				vReach("promoted")
+			}
+			for _, id := range c.ids {
+				r := c.nodes[id]
+				vAssert(r.lastLogIndex == L.lastLogIndex && vLogsEqual(la, c.logs[id], L.lastLogIndex), "M-logs-converge")
+				vAssert(r.configs.Latest.Index == L.configs.Latest.Index && r.configs.Latest.isVoter(4), "M-every-node-adopted-the-final-configuration")
+				vAssert(r.commitIndex == L.commitIndex, "M-commit-index-converges")
+			}
+			vAssert(N.state == Follower && N.term == L.term, "M-joining-node-follows")
+			c.closeAll()
+		}
+		step++
+	})
+	L.stateLoop()
+	vReach("closed")
+	vAssert(step >= 2, "script-completed")
+	vReach("end")
+}
+
+//verif:check C18,C19,C07 sched=coop maxsteps=800000 onunwind=violation stubs=rt,timers,valuefile,abslog onblock=violation reach=clients-started,answers,closed,end desc="the admin client protocol end to end on two real nodes: the real Client (GetInfo, ChangeConfig, WaitForStableConfig) talks over byte pipes to the real server.handleConn/handleTask, the tasks run in the real state loops and their responses travel back through encodeTaskResp/decodeTaskResp: the status report a client receives equals the node's state field by field and satisfies the ordering relations; a configuration change sent to a follower comes back as a NotLeaderError naming the leader and its address with Lost=false, recognisable by type; WaitForStableConfig on the leader returns its committed configuration" bounds="leader + follower (third voter down), logs of 3 entries + no-op, 1-byte symbolic payloads; three client calls; round-robin goroutine schedule"
+func VH_C18_cluster2_client() {
+	cfgE := vClusterConfig().encode()
+	cfgE.index, cfgE.term = 1, 1
+	e2 := &entry{index: 2, term: 1, typ: entryUpdate, data: vBytes("payload2", 1)}
+	e3 := &entry{index: 3, term: 2, typ: entryUpdate, data: vBytes("payload3", 1)}
+	c := vNewCluster()
+	c.add(1, []*entry{cfgE, e2, e3}, 3, 1, 2)
+	c.add(2, []*entry{cfgE, e2, e3}, 3, 1, 2)
+	L, F := c.nodes[1], c.nodes[2]
+	L.state, L.leader = Leader, 1
+	c.wire()
+	c.start(1)
+	dialTo := func(id uint64) dialFn {
+		return func(network, address string, timeout time.Duration) (net.Conn, error) {
+			a, b := vPipe()
+			srv := c.srv[id]
+			go func() { _ = srv.handleConn(b) }()
+			return a, nil
+		}
+	}
+	var (
+		infoL, infoF       Info
+		errIL, errIF, errC error
+		stable             Config
+		errS               error
+		done               int
+	)
+	step := 0
+	vSetIdleHook(func() {
+		switch step {
+		case 0:
+			vAssert(L.commitIndex == 4 && F.commitIndex == 4, "P-cluster-settled")
+			cl, cf := &Client{vAddr(1), dialTo(1)}, &Client{vAddr(2), dialTo(2)}
+			go func() { infoL, errIL = cl.GetInfo(); done++ }()
+			go func() { infoF, errIF = cf.GetInfo(); done++ }()
+			go func() {
+				nc := vClusterConfig()
+				nc.Index, nc.Term = 1, 1
+				nc.Nodes[4] = Node{ID: 4, Addr: vAddr(4)}
+				errC = cf.ChangeConfig(nc)
+				done++
+			}()
+			go func() { stable, errS = cl.WaitForStableConfig(); done++ }()
+			vReach("clients-started")
+		case 1:
+			vAssert(done == 4, "P-every-client-call-returned")
+			vReach("answers")
+			for _, x := range []struct {
+				inf Info
+				err error
+				r   *Raft
+			}{{infoL, errIL, L}, {infoF, errIF, F}} {
+				inf, r := x.inf, x.r
+				vAssert(x.err == nil, "P-getinfo-succeeds")
+				vAssert(inf.CID == r.cid && inf.NID == r.nid && inf.Term == r.term && inf.State == r.state && inf.Leader == r.leader, "P-report-identity-term-role-as-on-the-node")
+				vAssert(inf.Committed == r.commitIndex && inf.LastLogIndex == r.lastLogIndex && inf.LastLogTerm == r.lastLogTerm && inf.LastApplied == r.fsm.index, "P-report-indexes-as-on-the-node")
+				vAssert(inf.SnapshotIndex == r.snaps.index && inf.FirstLogIndex == 1, "P-report-snapshot-and-first-index-as-on-the-node")
+				vAssert(inf.Configs.Latest.Index == r.configs.Latest.Index && inf.Configs.Committed.Index == r.configs.Committed.Index && len(inf.Configs.Latest.Nodes) == 3, "P-report-configurations-as-on-the-node")
+				vAssert(inf.LastApplied <= inf.Committed && inf.Committed <= inf.LastLogIndex && inf.FirstLogIndex-1 <= inf.SnapshotIndex && inf.SnapshotIndex <= inf.LastLogIndex, "P-report-ordering-relations")
+			}
+			vAssert(len(infoL.Followers) == 2 && infoL.Followers[2].MatchIndex == 4, "P-leader-report-lists-followers")
+			nle, ok := errC.(NotLeaderError)
+			vAssert(ok, "P-follower-rejects-change-with-not-leader-error")
+			if ok {
+				vAssert(nle.Leader.ID == 1 && nle.Leader.Addr == vAddr(1) && !nle.Lost, "P-not-leader-error-names-the-leader")
+			}
+			vAssert(F.configs.Latest.Index == 1 && L.configs.Latest.Index == 1, "P-rejected-change-takes-no-effect")
+			vAssert(errS == nil && stable.Index == 1 && len(stable.Nodes) == 3, "P-wait-for-stable-returns-the-committed-configuration")
+			c.closeAll()
+		}
+		step++
+	})
+	L.stateLoop()
+	vReach("closed")
+	vAssert(step >= 2, "script-completed")
+	vReach("end")
+}
